@@ -771,7 +771,7 @@ func runCheck(specPath, tier, only string, workers int, noNative, trace bool) in
 	if cfg.MaxAlloc == 0 {
 		cfg.MaxAlloc = 4096
 	}
-	cfg.Fallbacks = []string{"z3-new", "cvc5", "z3"}
+	cfg.Fallbacks = []string{"z3-new", "cvc5", "cvc5-int", "z3"}
 	cfg.OneShotS = spec.OneShotS
 	if cfg.OneShotS == 0 {
 		cfg.OneShotS = 60
